@@ -10,3 +10,44 @@ Theorem C20_skip_cell_safe : forall t lo hi pos : Z, lo <= pos <= hi ->
   (clamp t lo hi - t) * (clamp t lo hi - t) <= (pos - t) * (pos - t).
 Proof. exact clamp_admissible. Qed.
 Print Assumptions C20_skip_cell_safe.
+
+(* ---- the ring-by-ring search of Space::knn (Model/Knn.v: bounded max-heap as a sorted list, cells skipped by
+   their clamp bound, rings stopped by dist_to_face + r * min cell width) *)
+From MV Require Import Model.Knn Proofs.KnnProofs.
+From Coq Require Import Permutation Sorted Lia.
+Import ListNotations.
+
+(* whenever every cell bound is below its particles' distances and every ring bound is below the distances of
+   all particles in later rings (rings_wf), the search returns, for every k, the k nearest candidates in
+   increasing order of distance: sorted, of length min k n, and no candidate left out is closer than one returned *)
+Theorem C20_knn_search_is_k_nearest : forall k rings, rings_wf rings ->
+  let h := knn_search k rings in
+  StronglySorted (fun a b => ckey a <= ckey b) h /\ length h = Nat.min k (length (all_cands rings)) /\
+  exists rest, Permutation (all_cands rings) (h ++ rest) /\ forall a b, In a h -> In b rest -> ckey a <= ckey b.
+Proof. exact knn_search_k_nearest. Qed.
+Print Assumptions C20_knn_search_is_k_nearest.
+
+(* equivalently: its distance sequence is the first k entries of the sorted list of all candidate distances
+   (brute force), whatever the pruning did *)
+Theorem C20_knn_search_is_brute_force : forall k rings, rings_wf rings ->
+  map ckey (knn_search k rings) = firstn k (zsort (map ckey (all_cands rings))).
+Proof. exact knn_search_is_brute_force. Qed.
+Print Assumptions C20_knn_search_is_brute_force.
+
+(* the ring bound is admissible on an ideal grid: a particle q in a cell j outside rings 0..r of the query's
+   cell i is at least dist_to_face + r * (smallest cell width) away, for any cell widths (cubic or not) *)
+Theorem C20_ring_bound : forall (w i j p q : kV3) (wmin r dtf : Z),
+  (forall a, (a < 3)%nat -> 0 < wmin <= ax a w) -> 0 <= r ->
+  in_cell w i p -> in_cell w j q -> below_face_dist w i p dtf -> beyond_ring i j r ->
+  (dtf + r * wmin) * (dtf + r * wmin) <= kdist2 p q.
+Proof. exact ring_bound. Qed.
+Print Assumptions C20_ring_bound.
+
+(* non-vacuity: a concrete query with two rings; the second ring is never visited for k = 1 *)
+Example C20_knn_example :
+  let rings := [(1, [{| glb := 0; gmembers := [(9, 1%nat); (4, 2%nat)] |}]);
+                (5, [{| glb := 30; gmembers := [(36, 3%nat)] |}; {| glb := 25; gmembers := [(49, 4%nat)] |}])] in
+  rings_wf rings /\ knn_search 1 rings = [(4, 2%nat)] /\ knn_search 3 rings = [(4, 2%nat); (9, 1%nat); (36, 3%nat)].
+Proof.
+  cbn [rings_wf]. repeat split; try (repeat constructor; cbn; lia); try reflexivity.
+Qed.
